@@ -147,6 +147,16 @@ G_Term(cls, m, n, b, seed, depth, mode) ==
        \* an interpolated operator nested in a sum: its products go through the sparse W matrices (make_sparse_from_indices_and_values)
        [] cls = "SumInterp" -> Op_Sum(<<G_Term("Interp", m, n, b1, seed + 3, 1, 0), G_Term("Dense", m, n, b1, seed + 5, 0, 0)>>)
        [] cls = "MatmulTri" -> Op_Matmul(G_Term("Tri", n, n, b1, seed + 3, 0, 0), G_Term("Dense", n, n, b2, seed + 5, 0, 0))
+       \* K = R R^T of rank 2 plus a constant diagonal s I with s # 1: a pivoted-Cholesky preconditioner of rank >= 2 is exact (P = A)
+       [] cls = "AddedDiagRootConst" -> Op_AddedDiag(Op_RootT(G_Small(b1 \o <<n, 2>>, seed + 3)), Op_ConstDiag(T_Full(b1 \o <<1>>, 3), n))
+       \* a larger, badly scaled system (entries ~ 10^3): K + D with per-element noise; CG needs more than 10 iterations
+       [] cls = "AddedDiagBig" -> Op_AddedDiag(Op_Dense(T_Scale(G_PdDense(n, b1, seed + 3), 500)), Op_Diag(T_Scale(G_Pos(b1 \o <<n>>, seed + 5), 100)))
+       \* congruence with diag(1, 3, 5, 7, 1, ...) spreads the spectrum over several decades: every Lanczos / quadrature node matters
+       [] cls = "DenseBig" -> LET A == G_PdDense(n, b1, seed + 3) r == Len(A.shape)
+                              IN Op_Dense(T_Make(A.shape, LAMBDA idx : T_At(A, idx) * (1 + 2 * (idx[r - 1] % 4)) * (1 + 2 * (idx[r] % 4))))
+       \* upper-orientation Cholesky operators nested in structures whose Cholesky is assembled from the children's factors
+       [] cls = "KronCholU" -> Op_Kron(<<G_Term("CholU", 2, 2, b1, seed + 3, 0, 1), G_Term("Dense", n \div 2, n \div 2, b1, seed + 5, 0, 1)>>)
+       [] cls = "BlockDiagCholU" -> Op_BlockDiag(G_Term("CholU", n \div 2, n \div 2, b1 \o <<2>>, seed + 3, 0, 1), -3)
        [] cls = "SumZ" -> Op_Sum(<<G_Term("Dense", m, n, b1, seed + 3, 0, 0), Op_Zero(b2 \o <<m, n>>)>>)
        [] cls = "AddedDiag" ->
             Op_AddedDiag(IF d1 <= 0 THEN G_Term(G_Pick(IF mode = 1 THEN <<"Dense", "Toeplitz", "Chol">> ELSE G_NonDiagLeaf, seed), n, n, b1, seed + 3, 0, mode)
@@ -233,7 +243,7 @@ G_AllClasses == <<"Dense", "User", "Diag", "ConstDiag", "Identity", "Zero", "Toe
 G_SquareOnly == {"MatmulTri", "LRRAddedDiagI", "AddedDiagI", "SumI", "Diag", "ConstDiag", "Identity", "Toeplitz", "Tri", "Chol", "CholU", "Root", "LowRankRoot", "Kron3", "KronTri",
                  "KronDiag", "KronAddedDiag", "SumKron", "AddedDiag", "LRRAddedDiag", "PsdSum", "Mul", "BlockDiag",
                  "BlockInter", "Perm", "TransPerm"}
-G_LeafClasses == {"SumInterp", "MatmulTri", "LRRAddedDiagI", "AddedDiagI", "SumI", "Dense", "User", "Diag", "ConstDiag", "Identity", "Zero", "Toeplitz", "Chol", "CholU", "SumZ", "LowRankRoot", "KronTri",
+G_LeafClasses == {"AddedDiagRootConst", "AddedDiagBig", "DenseBig", "KronCholU", "BlockDiagCholU", "SumInterp", "MatmulTri", "LRRAddedDiagI", "AddedDiagI", "SumI", "Dense", "User", "Diag", "ConstDiag", "Identity", "Zero", "Toeplitz", "Chol", "CholU", "SumZ", "LowRankRoot", "KronTri",
                   "KronDiag", "SumKron", "LRRAddedDiag", "Perm", "TransPerm", "Kernel"}
 \* classes that only exist for PSD arguments
 G_PsdOnly == {"Chol", "CholU", "PsdSum", "Mul"}
